@@ -501,6 +501,17 @@ pub fn c03(ctx: &Ctx) -> PropResult {
         cases.push(run_case(format!("PROCEDURE area(a) {{\nRETURN a * a\n}}\nn <- 0\nREPEAT 2 TIMES {{\nn <- n + 1\nDISPLAY(area(3))\nIF (n == 1) {{\n{second}\n}}\n}}\n"), "redeclaration"));
         cases.push(run_case(format!("PROCEDURE area(a) {{\nRETURN a * a\n}}; {second}; DISPLAY({call2})\n"), "redeclaration"));
     }
+    // a procedure exists from the moment its declaration has been executed, not before: calls above the declaration
+    for src in [
+        "DISPLAY(\"start\")\nDISPLAY(later(1))\nPROCEDURE later(x) {\nRETURN x + 1\n}\nDISPLAY(later(2))\n",
+        "PROCEDURE first() {\nRETURN later(1)\n}\nDISPLAY(\"start\")\nDISPLAY(first())\nPROCEDURE later(x) {\nRETURN x + 1\n}\nDISPLAY(first())\n",
+        "l <- [1, 2, 3]\nDISPLAY(LENGTH(l))\nPROCEDURE LENGTH(x) {\nRETURN 99\n}\nDISPLAY(LENGTH(l))\n",
+        "PROCEDURE a() {\nRETURN b()\n}\nPROCEDURE b() {\nRETURN 1\n}\nDISPLAY(a())\n",
+        "IF (FALSE) {\nPROCEDURE never() {\nRETURN 1\n}\n}\nDISPLAY(\"start\")\nDISPLAY(never())\n",
+        "REPEAT 2 TIMES {\nDISPLAY(\"it\")\nDISPLAY(inloop())\nPROCEDURE inloop() {\nRETURN 5\n}\n}\n",
+    ] {
+        cases.push(run_case(src.to_string(), "call-before-declaration"));
+    }
     // names are exact: another casing of a defined name (library or user) is undefined, raised before anything runs
     for (decl, call) in [("", "display(1)"), ("", "Display(1)"), ("l <- [1]\n", "DISPLAY(length(l))"), ("l <- [1]\n", "append(l, 2)"), ("PROCEDURE SHOUT() {\nDISPLAY(\"in SHOUT\")\n}\n", "shout()"), ("PROCEDURE whisper() {\nDISPLAY(\"in whisper\")\n}\n", "WHISPER()"), ("PROCEDURE Mixed() {\nDISPLAY(\"in Mixed\")\n}\n", "mixed()"), ("PROCEDURE f() {\nRETURN 1\n}\nPROCEDURE F() {\nRETURN 2\n}\n", "DISPLAY(f() + F() * 10)")] {
         cases.push(run_case(format!("{decl}DISPLAY(\"before\")\n{call}\nDISPLAY(\"after\")\n"), "name-casing"));
@@ -601,6 +612,11 @@ pub fn c04(ctx: &Ctx) -> PropResult {
     }
     for src in scope_family() {
         cases.push(run_case(src, "scope-isolation"));
+    }
+    // x <- y with x already a list and y another list with the same printed contents: x's cell takes y's elements (the
+    // inner lists of y, its own zeros), whatever x held
+    for (xs, ys) in [("[[1], [2]]", "[[1], [2]]"), ("[0, 5]", "[-0, 5]"), ("[[[]]]", "[[[]]]"), ("[\"a\", [1]]", "[\"a\", [1]]"), ("[1, 2]", "[1, 2]")] {
+        cases.push(run_case(format!("x <- {xs}\ny <- {ys}\nkeep <- x[1]\nx <- y\nDISPLAY(x)\nDISPLAY(1 / x[1] < 0)\nIF (LENGTH(\"\" + y[1]) > 2) {{\nAPPEND(y[1], 9)\n}}\nDISPLAY(x)\nDISPLAY(y)\nDISPLAY(keep)\n"), "assign-equal-contents"));
     }
     // every evaluation of a list-producing expression yields a new list: evaluated twice (loop, procedure called
     // twice), the first result changed, both displayed
@@ -708,6 +724,31 @@ pub fn c05(ctx: &Ctx) -> PropResult {
             let a = pexpr_program(&min, val);
             let b = pexpr_program(&full, val);
             cases.push(run_case(a, "minimal").aux(b));
+        }
+    }
+    // with a required pair of parentheses removed the text means something else (or nothing): the parser must agree
+    // with the model on every such text (trees and diagnostics), not only on the well-formed renderings
+    for t in trees.iter().take(if ctx.quick() { 1_200 } else { 20_000 }) {
+        let min = t.render_min();
+        let chars: Vec<char> = min.chars().collect();
+        let mut stack = vec![];
+        let mut pairs = vec![];
+        for (i, c) in chars.iter().enumerate() {
+            if *c == '(' {
+                stack.push(i);
+            } else if *c == ')' {
+                if let Some(o) = stack.pop() {
+                    pairs.push((o, i));
+                }
+            }
+        }
+        for (o, c) in pairs {
+            // only grouping parentheses (not the ones of a call: preceded by an identifier character)
+            if o > 0 && (chars[o - 1].is_alphanumeric() || chars[o - 1] == '_') {
+                continue;
+            }
+            let dropped: String = chars.iter().enumerate().filter(|(i, _)| *i != o && *i != c).map(|(_, ch)| *ch).collect();
+            cases.push(Case::new(Kind::Parse, format!("DISPLAY({dropped})\n")).tag("parentheses-removed"));
         }
     }
     // the oracle runs the fully parenthesised twin on the implementation and compares behaviours
